@@ -156,6 +156,7 @@ class Project:
         for (c, st, out) in self.cmds: L.append("c %s %d %s" % (hx(c), st, hx(out)))
         if self.permissive: L.append("o 1")
         if self.sched is not None: L.append("s " + " ".join(str(x) for x in self.sched))
+        if getattr(self, "idle", False): L.append("y 1")
         if self.pp is not None: L.append("p %s %d" % (hx(self.pp[0]), int(self.pp[1])))
         L.append("E")
         return "\n".join(L)
